@@ -20,6 +20,12 @@ CHECKS = {
             "real": ["include/oneapi/tbb/concurrent_unordered_{map,set}.h, concurrent_{map,set}.h, detail/_concurrent_unordered_base.h (split-ordered list), detail/_concurrent_skip_list.h"]},
     "C13": {"scenarios": ["c13"], "quick_budget_s": 40, "thorough_budget_s": 600,
             "real": ["include/oneapi/tbb/concurrent_priority_queue.h, detail/_aggregator.h"]},
+    "C17": {"scenarios": ["c17"], "quick_budget_s": 45, "thorough_budget_s": 600,
+            "real": ["src/tbbmalloc/frontend.cpp, backend.cpp, backref.cpp, large_objects.cpp, tbbmalloc.cpp (compiled with TBB_USE_DEBUG=1 in the asan flavour)"],
+            "assumptions": ["'for all request sizes 0..2^64-1' is a pure-input clause: sizes are drawn from a list biased to every size-class boundary, not enumerated", "large blocks are pattern-checked on a sample of positions (first 4096 bytes, every 4099th byte, last 1024 bytes)"]},
+    "C18": {"scenarios": ["c18"], "quick_budget_s": 45, "thorough_budget_s": 600,
+            "real": ["src/tbbmalloc/* incl. memory pools (rml::pool_*), mmap/mremap through the simulator's failure-injecting layer"],
+            "assumptions": ["the k-th raw allocation to fail is drawn per run (k in 1..14, single / window / long outage), not enumerated per trace"]},
     "C08": {"scenarios": ["c08"], "quick_budget_s": 45, "thorough_budget_s": 600,
             "real": ["include/oneapi/tbb/{spin,queuing,}_mutex.h, {spin_rw,queuing_rw,rw}_mutex.h, src/tbb/queuing_rw_mutex.cpp, rtm_mutex.cpp, rtm_rw_mutex.cpp (fallback paths)"],
             "assumptions": ["speculative (RTM) variants run their non-transactional fallback paths only"]},
@@ -49,6 +55,12 @@ ASSUMPTIONS = [
 NOT_APPLICABLE = {}
 
 MANIFEST_TEXT = {
+    "C17": {"level": "Seeded search over schedules of 1-4 simulated threads issuing scalable_malloc/calloc/realloc/aligned_malloc/aligned_realloc/posix_memalign/free/msize and cleanup commands against the real tbbmalloc (sizes biased to every class boundary, alignments up to 2^20, foreign frees, threads exiting with live blocks whose slabs are orphaned and adopted by a later thread); "
+                     "oracle: shadow interval map of live blocks with per-block fill patterns: no overlap, alignment, msize >= request, calloc zero, realloc prefix preserved, live blocks never written by the allocator.",
+            "note": "request sizes and alignments are sampled (pure-input quantifier not decided); MALLOC_ASSERT, ASan and UBSan live in the quick flavour."},
+    "C18": {"level": "Seeded search over operation sequences, schedules and raw-allocation failure points: the k-th mmap/mremap (single, window or long outage) and the k-th call of a pool's raw allocator fail; extreme sizes/alignments (SIZE_MAX-k, n*size overflow, non-power-of-two, 2^63); growable and fixed memory pools with harness raw callbacks; "
+                     "oracle: documented failure reporting (null/errno, ENOMEM/EINVAL), live blocks intact after every failure (shadow heap), recovery once memory is back, pool blocks inside that pool's raw regions, pool_identify, fixed pool calls the raw allocator once, every raw region returned exactly once and never while a block in it is in use.",
+            "note": "claimed as exploration (k is sampled per run), not as an exhaustive k-enumeration per trace."},
     "C10": {"level": "Seeded search over schedules of 2-4 simulated threads doing insert/emplace/find/count/erase (by key and by accessor, holding accessors across schedule points) on the real concurrent_hash_map with identity / constant / low-bit-colliding hashers, 1-2 initial buckets and sequential prefills that park the table at each growth threshold; "
                      "oracle: per-key Wing-Gong-Lowe linearizability against a sequential map (values carry unique tags), reader/writer holder bookkeeping inside the mapped value, destructor check (no element destroyed under an accessor), size()/traversal/find agreement at quiescence.",
             "note": "<= 22 concurrent operations on <= 6 keys per run; P-compositional per-key checking; SC at atomic-operation granularity."},
